@@ -147,28 +147,23 @@ Lemma hw_adopted_modifiers_eperm_identity inc c :
   has_guard c = true -> adopted_call inc c = Refused EPERM_ /\ call_kind c = Modifier.
 Proof. destruct c; simpl; intro H; try discriminate; split; reflexivity. Qed.
 
-(* REFUTED as the code stands: structure-modifying calls without a guard write (or free) mapped memory *)
+(* every structure-modifying call that receives the topology is refused with EPERM *)
+Lemma hw_adopted_modifiers_eperm_partial inc c :
+  call_kind c = Modifier -> c <> CObjAddInfo -> adopted_call inc c = Refused EPERM_.
+Proof. destruct c; simpl; intros H1 H2; try discriminate; try reflexivity. exfalso; apply H2; reflexivity. Qed.
+(* REFUTED for the one modifier that has no topology argument: hwloc_obj_add_info reallocs the mapped infos array *)
 Lemma hw_adopted_modifiers_refuted :
   exists c, call_kind c = Modifier /\ adopted_call true c = Fault.
-Proof. exists CMemattrSetValue. split; reflexivity. Qed.
-Lemma hw_unguarded_modifiers : forall c inc, call_kind c = Modifier -> has_guard c = false ->
-  In c [CMemattrRegister; CMemattrSetValue; CCpukindsRegister; CRefresh; CObjAddInfo] /\ adopted_call inc c = Fault.
-Proof. intros c inc; destruct c; simpl; intros H1 H2; try discriminate; split; try reflexivity; tauto. Qed.
+Proof. exists CObjAddInfo. split; reflexivity. Qed.
 
-(* REFUTED twice: a permitted call (allow, original loaded with INCLUDE_DISALLOWED) and a consulting call (first memattr
-   query) write into the read-only mapping *)
-Lemma hw_adopted_no_fault_refuted :
-  (exists c, call_kind c = Permitted /\ adopted_call true c = Fault) /\
-  (exists c, call_kind c = Consulting /\ adopted_call true c = Fault).
-Proof. split; [exists CAllow|exists CMemattrQuery]; split; reflexivity. Qed.
-
-(* every other consulting or permitted call leaves the mapping alone *)
-Lemma hw_adopted_no_fault_partial inc c :
-  call_kind c <> Modifier -> c <> CAllow -> c <> CMemattrQuery -> adopted_call inc c = Ok.
-Proof. destruct c, inc; simpl; intros H1 H2 H3; try reflexivity; try (exfalso; apply H1; reflexivity); exfalso; auto. Qed.
-(* and allow is refused when the original was not loaded with INCLUDE_DISALLOWED *)
-Lemma hw_allow_needs_include_disallowed : adopted_call false CAllow = Refused EINVAL_.
-Proof. reflexivity. Qed.
+(* no consulting or permitted call writes into the read-only mapping: each one works, or (allow without
+   INCLUDE_DISALLOWED in the original) is refused with EINVAL *)
+Lemma hw_adopted_no_fault inc c :
+  call_kind c <> Modifier ->
+  adopted_call inc c = Ok \/ (c = CAllow /\ inc = false /\ adopted_call inc c = Refused EINVAL_).
+Proof. destruct c, inc; simpl; intro H; try (left; reflexivity); try (exfalso; apply H; reflexivity); right; repeat split. Qed.
+Lemma hw_allow_works : adopted_call true CAllow = Ok /\ writes true CAllow = Some Private.
+Proof. split; reflexivity. Qed.
 
 (* C12's dup theorem instantiated with the write allocator: the copy in the mapping erases to dup_tree of the original *)
 Lemma write_allocator_spec : alloc_spec write_allocator (fun c x => x < c).
